@@ -875,6 +875,74 @@ class Gen:
         return "\n".join(out) + "\n"
 
 
+def render_abi(g, zoo_mod):
+    """ABI glue for the abi-writable families: one exported interface per family version
+    (same trait and method names in every version), a recording implementation, per-version
+    call adapters and per-(caller i, implementation j) connection constructors."""
+    out = []
+    out.append("// GENERATED by gen/zoo.py --abi-out -- do not edit by hand")
+    out.append("#![allow(dead_code, unused_imports, unused_variables, non_camel_case_types, non_snake_case, clippy::all)]")
+    out.append("use crate::c10::{FamImpl, Op, PairEntry, Seen, LedgerEntry, model_call};")
+    out.append("use savefile_abi::{AbiConnection, AbiExportable};")
+    out.append("use savefile_derive::savefile_abi_exportable;")
+    out.append("use vcore::model::{Shape, Val};")
+    out.append("use vcore::stdimpls::Model;")
+    pairs = []
+    ledgers = []
+    for k, fam in enumerate(g.families):
+        if not fam["abi"]:
+            continue
+        n = len(fam["defs"])
+        for i in range(n):
+            m = "if%d_v%d" % (k, i)
+            out.append("pub mod %s {" % m)
+            out.append("    use super::*;")
+            out.append("    pub type T = vcore::%s::f%d_v%d::F%d;" % (zoo_mod, k, i, k))
+            out.append("    #[savefile_abi_exportable(version = %d)]" % i)
+            out.append("    pub trait IfF%d {" % k)
+            out.append("        fn echo(&self, x: T) -> T;")
+            out.append("        fn take_ref(&self, x: &T) -> u32;")
+            out.append("        fn give(&self, seed: u64, maxver: u32) -> T;")
+            out.append("        fn echo_vec(&self, x: Vec<T>) -> Vec<T>;")
+            out.append("        fn opt_res(&self, x: Option<T>) -> Result<T, String>;")
+            out.append("    }")
+            out.append("    impl IfF%d for FamImpl<T> {" % k)
+            out.append("        fn echo(&self, x: T) -> T { self.see(\"echo\", &x); x }")
+            out.append("        fn take_ref(&self, x: &T) -> u32 { self.see(\"take_ref\", x); 7 }")
+            out.append("        fn give(&self, seed: u64, maxver: u32) -> T { self.make(seed, maxver) }")
+            out.append("        fn echo_vec(&self, x: Vec<T>) -> Vec<T> { for e in x.iter() { self.see(\"echo_vec\", e); } x }")
+            out.append("        fn opt_res(&self, x: Option<T>) -> Result<T, String> { match x { Some(v) => { self.see(\"opt_res\", &v); Ok(v) } None => Err(\"none\".to_string()) } }")
+            out.append("    }")
+            out.append("    pub fn call(conn: &AbiConnection<dyn IfF%d>, op: &Op) -> Result<Val, String> {" % k)
+            out.append("        model_call::<T>(op, |x| conn.echo(x), |x| conn.take_ref(x), |s, m| conn.give(s, m), |x| conn.echo_vec(x), |x| conn.opt_res(x))")
+            out.append("    }")
+            out.append("}")
+            ledgers.append((k, i))
+        for i in range(n):
+            for j in range(n):
+                out.append("pub fn mk_%d_%d_%d(seen: Seen) -> Result<Box<dyn FnMut(&Op) -> Result<Val, String>>, String> {" % (k, i, j))
+                out.append("    let imp = FamImpl::<if%d_v%d::T>::new(seen);" % (k, j))
+                out.append("    let boxed: Box<dyn if%d_v%d::IfF%d> = Box::new(imp);" % (k, j, k))
+                out.append("    let conn = vcore::util::catch(|| unsafe { AbiConnection::<dyn if%d_v%d::IfF%d>::from_boxed_trait_for_test(<dyn if%d_v%d::IfF%d as AbiExportable>::ABI_ENTRY, boxed) })" % (k, i, k, k, j, k))
+                out.append("        .map_err(|p| format!(\"panic: {}\", p))?.map_err(|e| format!(\"{:?}\", e))?;")
+                out.append("    Ok(Box::new(move |op: &Op| if%d_v%d::call(&conn, op)))" % (k, i))
+                out.append("}")
+                pairs.append((k, i, j))
+    out.append("pub fn pairs() -> Vec<PairEntry> {")
+    out.append("    vec![")
+    for (k, i, j) in pairs:
+        out.append("        PairEntry { family: \"F%d\", index: %d, caller: %d, callee: %d, shape_caller: <if%d_v%d::T as Model>::shape, shape_callee: <if%d_v%d::T as Model>::shape, mk: mk_%d_%d_%d }," % (k, k, i, j, k, i, k, j, k, i, j))
+    out.append("    ]")
+    out.append("}")
+    out.append("pub fn ledgers() -> Vec<LedgerEntry> {")
+    out.append("    vec![")
+    for (k, i) in ledgers:
+        out.append("        LedgerEntry { family: \"F%d\", version: %d, verify: |dir| savefile_abi::verify_compatiblity::<dyn if%d_v%d::IfF%d>(dir).map_err(|e| format!(\"{:?}\", e)) }," % (k, i, k, i, k))
+    out.append("    ]")
+    out.append("}")
+    return "\n".join(out) + "\n"
+
+
 CONV_FN = {"ToStr": "conv_u64_to_string", "Double": "conv_double_u16", "StrLen": "conv_strlen"}
 RETYPE = {
     "u8": [("u16", "Same"), ("u32", "Same"), ("u64", "Same"), ("Option<u8>", "WrapSome")],
@@ -921,6 +989,7 @@ def main():
     ap.add_argument("--families", type=int, default=20)
     ap.add_argument("--out", required=True)
     ap.add_argument("--module", default="zoo")
+    ap.add_argument("--abi-out", default=None)
     a = ap.parse_args()
     g = Gen(a.seed, a.module)
     g.curated()
@@ -940,6 +1009,8 @@ def main():
             g.generic_item(i)
     src = g.render()
     open(a.out, "w").write(src)
+    if a.abi_out:
+        open(a.abi_out, "w").write(render_abi(g, a.module))
     feats = {}
     for it in g.items:
         for t in it["tags"]:
